@@ -32,7 +32,45 @@ fn show(s: &str) -> String {
 fn compare_content<R: Read>(f: &mut R, e: &MEntry, bufs: &[u32], i: usize) -> Result<(), Mismatch> {
     if e.is_small() {
         let want = e.bytes();
-        let (got, err, _) = read_all(f, bufs, want.len() as u64 + 1024);
+        // the provided methods of std::io::Read are ways of reading an entry too (a type may override them):
+        // rotate through them, keyed on the case (entry index + buffer schedule), besides the plain read loop
+        let (got, err) = match (i + bufs.len()) % 6 {
+            2 => {
+                let mut v = Vec::new();
+                let r = f.read_to_end(&mut v);
+                (v, r.err())
+            }
+            3 => {
+                let mut v = vec![0u8; want.len()];
+                match f.read_exact(&mut v) {
+                    Ok(()) => {
+                        // exactly size() bytes were taken; end-of-file comes next, and stays
+                        let mut tail = [0u8; 9];
+                        let mut err = None;
+                        for _ in 0..2 {
+                            match f.read(&mut tail) {
+                                Ok(0) => {}
+                                Ok(n) => {
+                                    v.extend_from_slice(&tail[..n]);
+                                }
+                                Err(e) => err = Some(e),
+                            }
+                        }
+                        (v, err)
+                    }
+                    Err(er) => (vec![], Some(er)),
+                }
+            }
+            4 => {
+                let mut v: Vec<u8> = Vec::new();
+                let r = std::io::copy(f, &mut v);
+                (v, r.err())
+            }
+            _ => {
+                let (got, err, _) = read_all(f, bufs, want.len() as u64 + 1024);
+                (got, err)
+            }
+        };
         if let Some(er) = err {
             return Err(mm("C01/read-error", format!("entry {i}: read failed after {} bytes: {er}", got.len())));
         }
